@@ -944,3 +944,123 @@ def case_expand_search():
 
 
 CASES["expand_search"] = case_expand_search
+
+
+def case_shape_search():
+    """Bounded search replay for the any-rank Shape obligations: Shape(x, start, end) for ranks 0..3, every start / end in
+    {absent, -5..5}, static and symbolic dims; the sliced shape feeds a Gather-free consumer (graph output) so that what optimize()
+    folds or records is observable.  Compared on onnxruntime (graph optimizations disabled) at two bindings of the symbolic dims."""
+    import onnxruntime as ort
+    import onnxscript.optimizer
+
+    def run(model, feeds):   # onnxruntime, optimizations off: onnx.reference does not clamp `end` below -rank (it returns shape[0:rank+end])
+        so = ort.SessionOptions()
+        so.graph_optimization_level = ort.GraphOptimizationLevel.ORT_DISABLE_ALL
+        so.log_severity_level = 3
+        return ort.InferenceSession(model.SerializeToString(), so, providers=["CPUExecutionProvider"]).run(None, feeds)
+    bad = 0
+    n = 0
+    for rank in range(0, 4):
+        for sym in (False, True):
+            dims = [("N" if (sym and i % 2 == 0) else 2 + i) for i in range(rank)]
+            for start in [None] + list(range(-5, 6)):
+                for end in [None] + list(range(-5, 6)):
+                    kw = {}
+                    if start is not None:
+                        kw["start"] = start
+                    if end is not None:
+                        kw["end"] = end
+                    nodes = [helper.make_node("Shape", ["x"], ["s"], **kw),
+                             helper.make_node("Constant", [], ["one"], value=numpy_helper.from_array(np.array([1], dtype=np.int64), "one")),
+                             helper.make_node("Concat", ["s", "one"], ["z"], axis=0)]
+                    g = helper.make_graph(nodes, "g", [vi("x", TensorProto.FLOAT, dims)], [vi("z", TensorProto.INT64, [None])])
+                    m = helper.make_model(g, opset_imports=[helper.make_opsetid("", 18)], ir_version=9)
+                    n += 1
+                    feeds = [{"x": np.zeros([d if isinstance(d, int) else b for d in dims], np.float32)} for b in (1, 4)]
+                    try:
+                        before = [run(m, f)[0] for f in feeds]
+                    except Exception:  # noqa: BLE001
+                        continue
+                    try:
+                        opt = onnxscript.optimizer.optimize(m)
+                        after = [run(opt, f)[0] for f in feeds]
+                    except Exception as e:  # noqa: BLE001
+                        print(f"Shape(x{dims}, start={start}, end={end}): optimize / optimized model raises {type(e).__name__}: {str(e)[:120]}")
+                        bad += 1
+                        continue
+                    for b, a, f in zip(before, after, feeds):
+                        if np.asarray(b).shape != np.asarray(a).shape or not np.array_equal(b, a):
+                            if bad < 8:
+                                print(f"Concat(Shape(x{dims}, start={start}, end={end}), [1]) on x of shape {f['x'].shape}: {np.asarray(b).tolist()} before, {np.asarray(a).tolist()} after optimize()")
+                            bad += 1
+    print(f"shape_search: {n} models, {bad} differ")
+    return bad
+
+
+CASES["shape_search"] = case_shape_search
+
+
+def case_reshape_abs_search():
+    """Bounded search replay for the any-rank reshape / expand / abs obligations: the target of Reshape / Expand is Shape(y)
+    (a Shape sym value), Abs is applied to Shape(y) + c; ranks 0..3, static / named / unknown dims, run at several bindings."""
+    import itertools
+    import onnxscript.optimizer
+    bad = 0
+    n = 0
+    kinds = [2, 3, "N", "M", None]
+    for rank in range(0, 4):
+        for xd in itertools.product(kinds, repeat=rank):
+            for yd in itertools.product(kinds, repeat=rank):
+                if rank == 3 and (xd[0] != yd[0]):
+                    continue
+                for which in ("Reshape", "Expand"):
+                    nodes = [helper.make_node("Shape", ["y"], ["s"]), helper.make_node(which, ["x", "s"], ["z"])]
+                    g = helper.make_graph(nodes, "g", [vi("x", TensorProto.FLOAT, list(xd)), vi("y", TensorProto.FLOAT, list(yd))],
+                                          [vi("z", TensorProto.FLOAT, None)])
+                    m = helper.make_model(g, opset_imports=[helper.make_opsetid("", 18)], ir_version=9)
+                    n += 1
+                    opt = onnxscript.optimizer.optimize(m)
+                    if [nd.op_type for nd in opt.graph.node] == [nd.op_type for nd in m.graph.node]:
+                        continue
+                    # bindings: named dims equal by name; unknown dims may differ between x and y
+                    for nb, mb, ub in ((2, 3, 1), (3, 2, 6), (1, 1, 1), (6, 1, 2)):
+                        def conc(ds, unknown):
+                            return [d if isinstance(d, int) else nb if d == "N" else mb if d == "M" else unknown for d in ds]
+                        xs, ys = conc(xd, ub), conc(yd, 6 // ub if ub else 1)
+                        f = {"x": np.arange(int(np.prod(xs)), dtype=np.float32).reshape(xs), "y": np.zeros(ys, np.float32)}
+                        try:
+                            b = run(m, f)[0]
+                        except Exception:  # noqa: BLE001
+                            continue
+                        try:
+                            a = run(opt, f)[0]
+                        except Exception as e:  # noqa: BLE001
+                            print(f"{which}(x{list(xd)}, Shape(y{list(yd)})): optimized model fails for x{xs} y{ys}: {str(e)[:100]}")
+                            bad += 1
+                            continue
+                        if np.asarray(a).shape != np.asarray(b).shape or not np.array_equal(a, b):
+                            if bad < 8:
+                                print(f"{which}(x{list(xd)}, Shape(y{list(yd)})) at x{xs} y{ys}: output shape {np.asarray(b).shape} before, {np.asarray(a).shape} after optimize()")
+                            bad += 1
+    for c in (-3, -1, 0, 2):
+        for yd in ([2], ["N"], [None]):
+            nodes = [helper.make_node("Shape", ["y"], ["s"]),
+                     helper.make_node("Constant", [], ["c"], value=numpy_helper.from_array(np.array([c], dtype=np.int64), "c")),
+                     helper.make_node("Add", ["s", "c"], ["t"]), helper.make_node("Abs", ["t"], ["z"])]
+            g = helper.make_graph(nodes, "g", [vi("y", TensorProto.FLOAT, yd)], [vi("z", TensorProto.INT64, [1])])
+            m = helper.make_model(g, opset_imports=[helper.make_opsetid("", 18)], ir_version=9)
+            n += 1
+            opt = onnxscript.optimizer.optimize(m)
+            for ext in (1, 2, 5):
+                if isinstance(yd[0], int) and ext != yd[0]:
+                    continue
+                f = {"y": np.zeros([ext], np.float32)}
+                b, a = run(m, f)[0], run(opt, f)[0]
+                if not np.array_equal(a, b):
+                    print(f"Abs(Shape(y{yd}) + {c}) at y[{ext}]: {b.tolist()} before, {a.tolist()} after optimize()")
+                    bad += 1
+    print(f"reshape_abs_search: {n} models, {bad} differ")
+    return bad
+
+
+CASES["reshape_abs_search"] = case_reshape_abs_search
